@@ -383,6 +383,19 @@ def cases(tier, seed):
             yield {"seed": st, "storage": st, "init": st == 16,
                    "fixed": [(10, [tgt]), (20, [("let", ("var", "P"), ("fn", "VARPTR", [("var", "A$")]), False)]), (30, [("data", [("q", "D")])])],
                    "spec": [("A$", True, 0, None, [nm, "varptr"])]}
+    # DIM lists far longer than any listing has them (a Color BASIC line holds some 28 two-letter string arrays; the emitted
+    # DIM statement is then longer than 255 characters): every member keeps its size, however the statement is laid out
+    long_names = [a + b + "$" for a in "AB" for b in "ABCDEFGHIJKLMN"]
+    for st in (80, 16, 255):
+        for init in (False, True):
+            for cfg_ in (None, {"AC$()": 200, "BK$()": 5}):
+                for scal in (False, True):
+                    d_ = {"seed": st, "storage": st, "init": init,
+                          "fixed": [(10, [("dim", [(nm, [] if scal else [1], [] if scal else ["1"]) for nm in long_names])]),
+                                    (20, [("let", ("var", "AC$") if scal else ("arr", "AC$", [X.num(1)]), ("str", "X"), False)])]}
+                    if cfg_:
+                        d_["cfg"] = {(k.replace("()", "") if scal else k): v for k, v in cfg_.items()}
+                    yield d_
     for text in ('10 PLAY "C"', '10 HDRAW "U4"', "10 A=INSTR(1,A$,B$)", "10 A$=STRING$(3,B$)", "10 A=VAL(A$)", "10 INPUT A$,B", "10 READ A\n20 DATA ,1",
                  '10 PLAY A$:HDRAW B$:A=VAL(A$)+INSTR(2,A$,"X"):PRINT STRING$(2,"*");HEX$(A)',
                  # a quotation mark without a partner in the program (a remark, a DATA item, a constant left open at the end of
